@@ -162,7 +162,9 @@ def oracle(line: str) -> typing.Optional[str]:
         else:
             if k > size or o + int(t[5]) > 8 * (size - k):
                 return '-3'
-            ns = (o + int(t[5])) // 8
+            floor_, ceil_ = (o + int(t[5])) // 8, (o + int(t[5]) + 7) // 8
+            return Pred(lambda got, k=k, o=o, a=floor_, b=ceil_: got in ('%d %d %d' % (k, max(0, 8 * a - o), o), '%d %d %d' % (k, max(0, 8 * b - o), o)),
+                        'pointer advanced by %d bytes, offset %d, size() of the floored (%d) or rounded-up (%d) byte count' % (k, o, max(0, 8 * floor_ - o), max(0, 8 * ceil_ - o)))
         return '%d %d %d' % (k, max(0, 8 * ns - o), o)
     if c == 'xbits':
         size, off = int(t[1]), int(t[2])
@@ -964,7 +966,7 @@ def run_shard(job: dict) -> dict:
         if rc != 0 or len(out) != len(lines):
             k = min(len(out), len(lines) - 1)
             res['crash'].append({'target': name, 'line': lines[k], 'returncode': rc, 'stderr': err, 'lines_answered': len(out),
-                                 'expected_by_property': expected[k]})
+                                 'expected_by_property': None if expected[k] is None else str(expected[k])})
         mo = model_out.get(job.get('model_for_all') or t['model'])
         prev = None  # monotonicity of float16 packing along the (sorted) grid
         for i, got in enumerate(out[:len(lines)]):
@@ -1052,11 +1054,17 @@ def main(chk: core.Check, replay: typing.Optional[str] = None) -> int:
     res = core.coq_check('C14', [])
     timing['coq_s'] = round(time.time() - t0, 1)
     chk.proof_coverage(res, [
-        'hand models coq/theories/Prims/CPrims.v of the rendered C support header (function by function), tied by the correspondence run',
-        'platform assumptions written into the model: LP64, little-endian host, 8-bit bytes, unsigned int = 32 bits, conversion to a '
-        'signed integer type is modulo 2^w (gcc/clang), memmove/memset = list splice',
+        'hand models coq/theories/Prims/CPrims.v (C header), CppPrims.v (C++ bitspan), PyPrims.v (Python Serializer/Deserializer), F16.v '
+        '(float16 pack/unpack on integers), function by function, tied by the correspondence runs of this check',
+        'platform assumptions written into the models: LP64, little-endian host, 8-bit bytes, unsigned int = 32 bits, conversion to a '
+        'signed integer type is modulo 2^w (gcc/clang), memmove/memset = list splice; IEEE-754 binary32 multiplication by 2^-112 / 2^112 '
+        'in round-to-nearest-even without flush-to-zero (modelled as exponent shift / RNE right shift on the bit pattern)',
+        'NumPy/struct semantics used by the Python model: uint8 arithmetic, scalar store (OverflowError above 255), slice assignment '
+        '(fits or raises; a length-1 source broadcasts), packbits/unpackbits(bitorder="little"), x.view(uint8) = little-endian image, '
+        'struct.pack/unpack("<e|f|d") (Section variable float_to_bytes)',
         'extraction: Require Extraction ExtrOcamlBasic only; OCaml 4.13.1; ocaml/c14_driver.ml',
-        'C driver tools/harness/c14_c_drv.c, gcc/clang and their sanitizers; the big-integer oracle in tools/checks/c14.py',
+        'drivers tools/harness/c14_c_drv.c, c14_cpp_drv.cpp, c14_py_drv.py, c14_f16_numpy.py; gcc/g++ 12, clang 14 and their sanitizers; '
+        'CPython 3.12, NumPy 2.5.3; the big-integer oracle in tools/checks/c14.py',
     ])
     if not res.ok:
         broken.append('proof obligation: %s %s' % (res.failed_file or 'coq', res.failed_theorem or ''))
